@@ -176,7 +176,11 @@ func newSortTable() *sortTable {
 }
 
 func typeKey(t types.Type) string {
-	return types.TypeString(t, func(p *types.Package) string { return p.Name() })
+	// full import paths: two packages may share a name (sync and internal/sync,
+	// pkg/lifecycle and pkg/lifecycle-poc)
+	return types.TypeString(t, func(p *types.Package) string {
+		return strings.TrimPrefix(p.Path(), "github.com/conduitio/conduit/pkg/")
+	})
 }
 
 func sanitize(s string) string {
